@@ -12,6 +12,8 @@ Traced from the LIVE code on a symbolic pandas Series `pva`
              replaced (both while tracing and while validating) by stand-ins that return the symbolic stacks
              Fa,Fb (n x n), Ga,Gb, Aa,Ab (n x 3) and identity transforms, so that the outputs x0..x{n-1} are
              model_error row 1 as a function of (dt, F_k, F_k+1, B_k, B_k+1, x, gyro_error, accel_error).
+             prop3d3 / prop2d3: the same on a THREE-row trajectory with two different symbolic intervals dt1, dt2
+             (outputs x* = row 1, z* = row 2): each step must use its own interval.
              The second row of model_error is exactly what the loop `x[i+1] = Phi[i].dot(x[i]) + delta_sensor[i]*dt[i]`
              produced.  To keep the Coq text small only a 2-state / 1-sensor-axis instance would be too special, so
              the instance is n states with a DENSE symbolic F: the printed definitions are the general formula.
@@ -95,22 +97,28 @@ class _Traj:
         self.iloc = [None]
 
 
-def _prop(n):
-    names_F = [f"F{r}{i}{j}" for r in 'ab' for i in range(n) for j in range(n)]
-    names_G = [f"G{r}{i}{j}" for r in 'ab' for i in range(n) for j in range(3)]
-    names_A = [f"A{r}{i}{j}" for r in 'ab' for i in range(n) for j in range(3)]
-    params = ([('dt', (0.1, 2.0))] + [(m, (-1.0, 1.0)) for m in names_F + names_G + names_A] +
+def _prop(n, rows=2):
+    """rows = 2: one step (dt);  rows = 3: two steps with DIFFERENT intervals dt1, dt2 (outputs x* = model_error row 1,
+    z* = row 2), so that a recursion that used one interval for every step cannot trace to the same definitions."""
+    letters = 'abc'[:rows]
+    dts = ['dt'] if rows == 2 else ['dt1', 'dt2']
+    names_F = [f"F{r}{i}{j}" for r in letters for i in range(n) for j in range(n)]
+    names_G = [f"G{r}{i}{j}" for r in letters for i in range(n) for j in range(3)]
+    names_A = [f"A{r}{i}{j}" for r in letters for i in range(n) for j in range(3)]
+    params = ([(d, (0.1, 2.0)) for d in dts] + [(m, (-1.0, 1.0)) for m in names_F + names_G + names_A] +
               [(f"x{i}", (-1.0, 1.0)) for i in range(n)] +
               [(f"eg{i}", (-1.0, 1.0)) for i in range(3)] + [(f"ea{i}", (-1.0, 1.0)) for i in range(3)])
 
     def run(V, A):
-        symbolic = not isinstance(V('dt'), float)
-        stack = lambda p, m: A([[[V(f"{p}{r}{i}{j}") for j in range(m)] for i in range(n)] for r in 'ab'])
+        symbolic = not isinstance(V(dts[0]), float)
+        stack = lambda p, m: A([[[V(f"{p}{r}{i}{j}") for j in range(m)] for i in range(n)] for r in letters])
         Fs, Gs, As = stack('F', n), stack('G', 3), stack('A', 3)
         x_init = A([V(f"x{i}") for i in range(n)])
         t0 = 3.0
-        index = A([t0, t0 + V('dt')])
-        ident = (sym._obj(np.eye(n)) if symbolic else np.eye(n))
+        times = [t0]
+        for d in dts:
+            times.append(times[-1] + V(d))
+        index = A(times)
         cols9 = util.TRAJECTORY_ERROR_COLS
 
         class EM(InsErrorModel):
@@ -123,7 +131,7 @@ def _prop(n):
                 return sym._obj(m) if symbolic else m
 
             def transform_to_output(self, trajectory):
-                m = np.zeros((2, 9, n))
+                m = np.zeros((rows, 9, n))
                 m[:, :n, :] = np.eye(n)
                 return sym._obj(m) if symbolic else m
 
@@ -132,25 +140,31 @@ def _prop(n):
         saved = error_model.InsErrorModel
         error_model.InsErrorModel = EM
         try:
-            traj = pd.DataFrame(index=index, columns=['lat'], data=(sym._obj([0.0, 0.0]) if symbolic else [0.0, 0.0]))
+            zeros = [0.0] * rows
+            traj = pd.DataFrame(index=index, columns=['lat'], data=(sym._obj(zeros) if symbolic else zeros))
             terr, merr = error_model.propagate_errors(
                 traj, pva_error, A([V(f"eg{i}") for i in range(3)]), A([V(f"ea{i}") for i in range(3)]),
                 with_altitude=(n == 9))
         finally:
             error_model.InsErrorModel = saved
-        if merr.shape != (2, n) or list(merr.columns) != InsErrorModel(n == 9).states:
+        if merr.shape != (rows, n) or list(merr.columns) != InsErrorModel(n == 9).states:
             raise TraceError("propagate_errors: unexpected model_error layout")
-        row0, row1 = merr.values[0], merr.values[1]
+        row0 = merr.values[0]
         for i in range(n):
             a, b = row0[i], x_init[i]
             if symbolic and not (isinstance(a, Sym) and a == b):
                 raise TraceError("propagate_errors: row 0 of model_error is not the initial error")
             if not symbolic and float(a) != float(b):
                 raise TraceError("propagate_errors: row 0 of model_error is not the initial error")
-        return {f"x{i}": row1[i] for i in range(n)}
+        out = {f"x{i}": merr.values[1][i] for i in range(n)}
+        if rows == 3:
+            out.update({f"z{i}": merr.values[2][i] for i in range(n)})
+        return out
     return params, run
 
 
 for _n, _tag in ((9, '3d'), (7, '2d')):
     _p, _r = _prop(_n)
     traced('C04Gen', f'prop{_tag}', _p, fast=('dt',), nval=8)(_r)
+    _p, _r = _prop(_n, rows=3)
+    traced('C04Gen', f'prop{_tag}3', _p, nval=8)(_r)
